@@ -15,7 +15,7 @@ ANCHORS = ['mpilot/libraries/eems/fuzzy.py:FuzzyOr.execute', 'mpilot/libraries/e
 LEVEL = "exploration"
 RULE = ("operator x parameter x input-order x layout cases; n<=3 inputs enumerate the complete 18^n value/missing lattice as "
         "array cells (rank 2-3 shapes also with inputs in Fortran-order / strided / negative-stride memory), n=4,5 sample cell tuples; a case is distinct by (operator, n, params, layout rank, order class)")
-REQUIRED_COUNTERS = ["ref_postconditions", "law_checks", "cells_compared", "repeated_field_cases", "mixed_dtype_cases", "saturated_field_cases", "memory_layout_cases", "plain_ndarray_cases"]
+REQUIRED_COUNTERS = ["ref_postconditions", "law_checks", "cells_compared", "repeated_field_cases", "mixed_dtype_cases", "saturated_field_cases", "memory_layout_cases", "plain_ndarray_cases", "large_rasters_checked", "real_producer_cases", "program_copies_checked"]
 EXHAUSTIVE_NOTE = "complete {17 fuzzy values + missing}^n lattice for n = 1, 2, 3 in both tiers"
 ASSUMPTIONS = ["reference models in mpv/ref.py (exact rationals) are the EEMS definitions as stated in the property",
                "numpy masked-array primitives are trusted", "FuzzyXOr with one input, k outside 1..n and zero weight sums are don't-care"]
@@ -127,6 +127,18 @@ def cases(ctx):
         ps = param_sets(rng, op, n, ctx.quick)
         yield {"kind": "sampled", "n": n, "op": op, "params": rng.choice(ps), "shape": [300], "order": list(range(n)), "count": 300, "rseed": rng.randrange(10 ** 9),
                "saturate": rng.choice([1.0, -1.0]), "saturate_pos": rng.randrange(n)}
+    # the operators on rasters of 2^18 .. 2^19 cells and a bit (block-wise code paths), judged through the algebra, vectorised
+    for r in range(ctx.n(2, 16)):
+        j = r * ctx.nshards + ctx.shard
+        yield {"kind": "biglaw", "n": rng.choice([2, 3, 4]), "shape": list([(300000,), (2 ** 18 + 1,), (600, 550), (2 ** 19 + 7,), (3, 333, 301), (2 ** 18,)][j % 6]), "rseed": rng.randrange(10 ** 9)}
+    # fields produced by real commands (FuzzyNot of a stand-in), also a single one; and the operator in a deep copy of the
+    # program whose input fields were replaced
+    for r in range(ctx.n(60, 3000)):
+        n = rng.choice([1, 1, 2, 3])
+        op = rng.choice([o for o in OPS if o != "FuzzyNot" and (n > 1 or o != "FuzzyXOr")])
+        ps = param_sets(rng, op, n, ctx.quick)
+        yield {"kind": "sampled", "n": n, "op": op, "params": rng.choice(ps), "shape": [200], "order": list(range(n)), "count": 200, "rseed": rng.randrange(10 ** 9),
+               "real_producers": True, "in_copy": rng.random() < 0.5}
     # sampled n = 4, 5
     reps = ctx.n(24, 400)
     count = 1500 if ctx.quick else 20000
@@ -205,7 +217,48 @@ def _one_cell_case(case, cols, i):
             "order": case["order"], "cols": [[c[i]] for c in cols]}
 
 
+def run_biglaw(ctx, case):
+    import random as _r
+    n, shape = case["n"], tuple(case["shape"])
+    rs = numpy.random.RandomState(case["rseed"] % (2 ** 31))
+    inputs = []
+    for k in range(n):
+        data = numpy.round(rs.uniform(-1, 1, size=shape) * 8) / 8.0
+        inputs.append(numpy.ma.array(data, mask=(rs.uniform(size=shape) < 0.05)))
+    union = numpy.zeros(shape, bool)
+    for a in inputs:
+        union |= numpy.ma.getmaskarray(a)
+    stack = numpy.stack([numpy.ma.getdata(a) for a in inputs])
+    want = {"FuzzyOr": stack.max(axis=0), "FuzzyAnd": stack.min(axis=0), "FuzzyUnion": stack.mean(axis=0)}
+    ctx.feature(("biglaw", n, len(shape), int(numpy.prod(shape)) % (2 ** 18) == 0))
+    ctx.count("operator_calls", 7)
+    ctx.count("large_rasters_checked")
+    calls = [("FuzzyOr", {}, "FuzzyOr"), ("FuzzyAnd", {}, "FuzzyAnd"), ("FuzzyUnion", {}, "FuzzyUnion"),
+             ("FuzzySelectedUnion", {"TruestOrFalsest": "Truest", "NumberToConsider": 1}, "FuzzyOr"), ("FuzzySelectedUnion", {"TruestOrFalsest": "Falsest", "NumberToConsider": 1}, "FuzzyAnd"),
+             ("FuzzySelectedUnion", {"TruestOrFalsest": "Truest", "NumberToConsider": n}, "FuzzyUnion"), ("FuzzyWeightedUnion", {"Weights": [2] * n}, "FuzzyUnion")]
+    for op, params, like in calls:
+        out = _call(op, inputs, params)
+        if not out.ok:
+            ctx.fail("%s:raises-%s:large-raster" % (op, out.inner() or out.err), {"shape": list(shape), "n": n})
+            return
+        res = out.value
+        ctx.count("law_checks")
+        ctx.count("cells_compared", int(res.size))
+        rm, rd = numpy.ma.getmaskarray(res), numpy.ma.getdata(res)
+        if tuple(res.shape) != shape or (rm != union).any():
+            i = int(numpy.flatnonzero((rm != union).ravel())[0]) if tuple(res.shape) == shape else None
+            ctx.fail("%s:%s:large-raster" % (op, "shape" if i is None else "missing-cell-present" if union.ravel()[i] else "valid-cell-missing"), {"cell": i, "cells": int(numpy.prod(shape)), "shape": list(shape), "params": params})
+            return
+        bad = (numpy.abs(rd - want[like]) > 1e-12) & ~union
+        if bad.any():
+            i = int(numpy.flatnonzero(bad.ravel())[0])
+            ctx.fail("%s:value:large-raster" % op, {"cell": i, "got": float(rd.ravel()[i]), "want": float(want[like].ravel()[i]), "shape": list(shape), "params": params})
+            return
+
+
 def run_case(ctx, case):
+    if case["kind"] == "biglaw":
+        return run_biglaw(ctx, case)
     op, n, params, shape, order = case["op"], case["n"], case["params"], tuple(case["shape"]), case["order"]
     cols = _columns(case)
     total = len(cols[0])
@@ -223,6 +276,8 @@ def run_case(ctx, case):
         ctx.count("plain_ndarray_cases")
     inputs = build_inputs(ocols, shape, payload=ctx.rng("payload", op, n).choice([0.0, 1e30, -1e30, 0.5]), dtypes=odt, mem=[mem[i] for i in order] if mem else None, plain=plain)
     call_params = _weights_as(oparams, case.get("weights_as"))
+    if case.get("real_producers"):
+        return _run_real(ctx, case, op, n, oparams, ocols, inputs, shape)
     if refs:
         ctx.count("repeated_field_cases")
         ocols = [ocols[i] for i in refs]
@@ -284,6 +339,47 @@ def run_case(ctx, case):
         for other in ("FuzzyXOr", "FuzzySelectedUnion"):
             _call(other, inputs, {"TruestOrFalsest": "Truest", "NumberToConsider": 1} if other == "FuzzySelectedUnion" else {})
         _reevaluate(ctx, op, inputs, oparams, refs, res, rk)
+
+
+def _run_real(ctx, case, op, n, params, cols, inputs, shape):
+    """The operator over results of real commands: each field is FuzzyNot of a stand-in holding its negation (exact). Optionally
+    the whole (not yet evaluated) program is deep-copied, the stand-ins of the copy are replaced by other fields, and the copy
+    is evaluated: it computes from its own fields."""
+    import copy
+    prog = arr.new_program()
+    ctx.count("real_producer_cases")
+    for k, a in enumerate(inputs):
+        arr.standin(prog, "S%d" % k, -a, fuzzy=True)
+        prog.add_command(prog.find_command_class("FuzzyNot"), "P%d" % k, {"InFieldName": "S%d" % k})
+    prog.add_command(prog.find_command_class(op), "Res", dict(params, InFieldNames=["P%d" % k for k in range(n)]))
+    runs = [(prog, cols, "")]
+    if case.get("in_copy"):
+        clone = copy.deepcopy(prog)
+        ctx.count("program_copies_checked")
+        for k in range(n):
+            clone.commands["S%d" % k]._result = numpy.ma.array(numpy.ma.getdata(inputs[k]).copy(), mask=numpy.ma.getmaskarray(inputs[k]).copy())     # the negated field
+        runs = [(clone, [[None if v is None else -v for v in c] for c in cols], ":in-a-copy-of-the-program"), (prog, cols, ":after-a-copy-was-evaluated")]
+    for target, use, where in runs:
+        try:
+            out = arr.Outcome(value=target.commands["Res"].result)
+        except Exception as e:
+            out = arr.Outcome(exc=e)
+        ctx.count("operator_calls")
+        try:
+            want, scale = ref.MODELS[op]([[None if v is None else Fraction(v) for v in c] for c in use], params)
+        except ref.Undefined as e:
+            ctx.dontcare("%s: %s" % (op, e))
+            return
+        tag = "fields-produced-by-commands" + where + (":single-field" if n == 1 else "")
+        if not out.ok:
+            ctx.fail("%s:raises-%s:%s" % (op, out.inner() or out.err, tag), {"error": repr(out.exc)[:300], "n": n, "params": params})
+            return
+        ctx.count("ref_postconditions")
+        ctx.count("cells_compared", len(cols[0]))
+        bad = ref.compare(out.value, want, scale=scale, rel=1e-12)
+        if bad:
+            ctx.fail("%s:%s:%s" % (op, bad[0], tag), {"cell": bad[1], "got": bad[2], "want": bad[3], "params": params})
+            return
 
 
 def _reevaluate(ctx, op, inputs, oparams, refs, first, rk):
